@@ -400,7 +400,7 @@ def run_collapse(c):
                 for q in range(400):
                     other.DoGlobalIteration(5)
             except BaseException as e:
-                ended = "stopped by its guard" if record.FP_GUARD in str(e) else "raised " + type(e).__name__
+                ended = "stopped by its guard" if record.guard_fired(e, other) else "raised " + type(e).__name__
         xs = [float(it.GetX()) for it in other.searchData]
         seen["min_gap"] = float(np.min(np.diff(xs))) if len(xs) > 1 else None
         seen["ended"] = ended
